@@ -39,10 +39,19 @@ CFG = {
         "written; bytes written before an error are not modelled), encoding/binary, uint32 wrap-around, the three loop forms, map lookup, and "
         "the unrolling of the Read/Write recursion. A function outside the subset makes Gen.lean fail to elaborate and is reported by name",
         "T2: model lean/GeomV/C05/Model.lean is tied to /repo/encoding/{wkb,hex} by the correspondence run (byte-exact, both directions) on every check",
-        "Go encoding/binary and encoding/hex behave as their documentation says (fixed-width integers / IEEE bit patterns in the given byte order; lower-case hex)",
+        "Go encoding/hex behaves as documented (lower-case hex). encoding/binary: the primitives encoding/wkb uses (order.Uint32/Uint64/PutUint32/PutUint64, "
+        "binary.Read/Write of uint32 and geom.Point) are transcribed from the Go 1.23 source into lean/GeomV/C05/BinStd.lean (shifts/ors, byte(v>>k), one io.ReadFull + "
+        "struct walk) and PROVED equal to GenLib's meaning (C05_bin_*); the transcription is tied to the real library by the bin lines of every run; still trusted: "
+        "binary.Read/Write of a []geom.Point = its elements one after the other, math.Float64bits/frombits are the identity on bit patterns",
+        "io.Reader: no longer 'the remaining bytes' only — lean/GeomV/C05/Stream.lean models a reader as ANY finite script of Read calls (short/empty reads, data "
+        "together with an error, errors of its own) and io.ReadFull over it (hand-written from io.ReadAtLeast; a Read error delivered with the last needed byte "
+        "stays pending); C05_readfull/C05_stream_model prove that wkb.Read behind such a reader = Model.read (= Gen.read, C05_stream_model_src) on the bytes delivered "
+        "before the first error. Stream.readS (wkb.Read generic in its byte source) is hand-written, proved equal to Model.read on byte lists, and tied by the "
+        "rdscript lines (exact results, error classes and bytes consumed)",
         "harness/cmd/c05 + lean driver + lib/vcheck.py transport inputs faithfully",
     ],
-    "assumptions": ["member counts < 2^32 (the WKB count field); nil slices and empty slices are not distinguished",
+    "assumptions": ["member counts < 2^32 (the WKB count field) — proved to be exactly the lossless domain (C05_roundtrip_iff; behaviour beyond it: C05_count_wraps); "
+                    "nil slices and empty slices are not distinguished",
                     "T1 sees the text of the functions, not the Go memory model: aliasing of results or inputs, state kept between calls and "
                     "package-level variables are outside the regenerated definitions (any use of a package-level variable other than the dispatch "
                     "table leaves the subset and is reported) and are probed by T2 (late-read batches, shared-backing inputs, repeated calls)"],
@@ -53,6 +62,14 @@ CFG = {
             "nil slices at every level; shared-backing inputs (rings/members as consecutive windows of one flat buffer with spare capacity and as prefix "
             "re-slices) encoded twice in both orders with a bit-for-bit before/after comparison of the input and of the two encodings; late-read encode batches; "
             "wkb.Read behind short-read readers; rejected-decode histories; truncated encodings. "
+            "Phase 3: 1..3 geometries serialized one after the other by the independent serializer (random order trees), optionally followed by "
+            "stray bytes, cut into scripted Read calls (one byte each / one call / sizes 0..1000 incl. empty reads), optionally failed at a random "
+            "position by io.EOF or the reader's own error (alone or together with the last bytes), read by n+1 successive wkb.Read calls on ONE reader with "
+            "the bytes consumed after every call and the values printed only after the last call (rdscript; long lists 1023/1025/2049 too); values written "
+            "one after the other to ONE non-Buffer writer and through bufio, read back from one reader (seqwr); writers failing after k bytes (wrfail); "
+            "foreign byte-order values (encbo); Decode on a window with sentinels, input compared before/after, decoded twice (decin; incl. lists truncated "
+            "inside a later chunk and trailing bytes); batches of decodes read late (decbatch); 60 (thorough 400) concurrent-caller lines (cc: 8 callers on "
+            "private copies + 6 hammering goroutines, both byte orders, every observation point; class conc-*); encoding/binary primitives against their transcription (bin). "
             "distinct = distinct input line; non-trivial = verdict class not 'skipped'",
     "timeout": {"quick": 600, "thorough": 3000},
 }
